@@ -6,7 +6,7 @@ PROP = {
     "jobs": [
         job("udp-sessions", "core", "./server/", "server",
             ["harness/core/server/c07c08_fakes_test.go", "harness/core/server/c07_sessions_test.go"],
-            "^TestVerifC07", ["udp-timelines", "udp-boundary", "udp-slowdial", "udp-endsweep"], race=True,
+            "^TestVerifC07", ["udp-timelines", "udp-boundary", "udp-slowdial", "udp-endsweep", "udp-writegate"], race=True,
             timeout_quick=300, timeout_thorough=3600),
     ],
     "race_oracle": True,
@@ -29,7 +29,11 @@ PROP = {
              "(end, datagram queued behind the dial, reply, same ID again). endsweep: k idle-but-not-yet-swept and m fresh sessions (k,m in 1..8, x2 variants), the IO ends 1..12 ms "
              "before a sweep instant and the first Close event of Run's final cleanup sleeps (virtual) across that "
              "instant, so a periodic sweep runs in the middle of the final cleanup; verdict by the end-of-connection "
-             "census. A case is "
+             "census. writegate: the fake socket write of one datagram of a session is gated (handed to the open socket, returns "
+             "only when released); while it is in flight the session is torn down by a socket read error / a failed reply "
+             "send / the sweeper (idle timeout passes during the write); then 1..3 more datagrams with the same ID, with "
+             "or without a datagram of another session in between, x timeouts {100,300}ms x first/second write gated x "
+             "0/2 bystanders. A case is "
              "non-trivial when at least one idle expiry and at least one delivered reply occurred; distinct = distinct "
              "(timeout, script)."),
     "assumptions": [
